@@ -309,7 +309,27 @@ func (s *sim) bubble() (final []lin.Op, mismatch string) {
 			out, _ := exec.Command("sh", "-c", "cd "+m.Dir+"/default-0 && ls snap-* rocksdb_backup 2>&1 | tr '\\n' ' '").CombinedOutput()
 			c.Log("dir", "m%d %s", m.Idx, out)
 		}
-		c.Violate(orProp(c, "C04"), "no-settle", "", "after the last fault and 660 fair rounds the replicas did not converge:%s", st)
+		// ground truth for known finding "backpressure-ignores-commit"
+		key := ""
+		var maxA uint64
+		for _, m := range cl.M {
+			if a := m.Parts[0].Node.GetAppliedIndex(); a > maxA {
+				maxA = a
+			}
+		}
+		nlag, nbp := 0, 0
+		for _, m := range cl.M {
+			if m.Parts[0].Node.GetAppliedIndex() < maxA {
+				nlag++
+				if cl.BackpressureStuck(m, 0) {
+					nbp++
+				}
+			}
+		}
+		if nlag > 0 && nlag == nbp && cl.Leader(0) >= 0 {
+			key = "backpressure-ignores-commit"
+		}
+		c.Violate(orProp(c, "C04"), "no-settle", key, "after the last fault and 1060 fair rounds the replicas did not converge:%s", st)
 		return
 	}
 	// unanswered calls stay unknown
